@@ -743,57 +743,99 @@ fn clauses_of_version(scn: &Scenario, version: &[usize]) -> Vec<Clause> {
     v
 }
 
-/// Pristine-state baselines, computed on a fresh OS thread: clean thread-locals, globals reset
+/// Pristine-state baselines, computed on a baseline thread: clean thread-locals, globals reset
 /// with start_query() before every query, a knowledge base of its own per version, no timer, the
-/// probes in counting mode. Nothing the simulated history does later can have touched this.
+/// probes in counting mode. Nothing the simulated history does can have touched this.
+///
+/// The thread is replaced by a new one (fresh thread-locals) every eighth call, not every call:
+/// creating threads does not scale on this machine (16 processes spawning at once take 1.5 ms per
+/// spawn instead of 0.1 ms). Between replacements the thread has only ever run baselines, never a
+/// history; a thread-local that a change under test poisons during a *baseline* (a sticky flag set
+/// by one query's arithmetic) is therefore clean again at least every eighth run.
 pub fn pristine_baselines(scn: &Scenario, opts: ExecOpts) -> Result<Vec<Vec<Baseline>>, String> {
-    let scn2 = scn.clone();
-    let handle = std::thread::Builder::new()
-        .name("qsim-baseline".to_string())
-        .stack_size(24 << 20)
-        .spawn(move || -> Result<Vec<Vec<Baseline>>, String> {
-            let anchor = 0u8;
-            SIM.with(|s| {
-                let mut s = s.borrow_mut();
-                *s = Sim::new();
-                s.mode = Mode::Baseline;
-                s.baseline_cap = opts.baseline_step_cap;
-                s.stack_base = &anchor as *const u8 as usize;
-                s.run_started = Some(std::time::Instant::now());
-            });
-            vp::set_probe(Some(probe));
-            let _ = take_output();
-            start_query();
-            if vp::peek_flag() {
-                vp::set_probe(None);
-                return Err("process poisoned: the stop flag is set and start_query() does not clear it".to_string());
-            }
-            let mut out = vec![];
-            for version in kb_versions(&scn2) {
-                let kb = build_kb(&clauses_of_version(&scn2, &version));
-                let mut row = vec![];
-                for q in &scn2.queries {
-                    match run_plain(q, &kb, true, 400) {
-                        Ok(b) => row.push(b),
-                        Err(why) => {
-                            vp::set_probe(None);
-                            start_query();
-                            return Err(why);
-                        }
+    struct Worker {
+        jobs: std::sync::mpsc::Sender<(Scenario, ExecOpts)>,
+        results: std::sync::mpsc::Receiver<Result<Vec<Vec<Baseline>>, String>>,
+        served: u64,
+    }
+    static WORKER: Mutex<Option<Worker>> = Mutex::new(None);
+    let mut slot = WORKER.lock().unwrap_or_else(|p| p.into_inner());
+    let stale = slot.as_ref().map(|w| w.served >= 8).unwrap_or(true);
+    if stale {
+        *slot = None; // closes the job channel: the old thread ends
+        let (jtx, jrx) = std::sync::mpsc::channel::<(Scenario, ExecOpts)>();
+        let (rtx, rrx) = std::sync::mpsc::channel();
+        std::thread::Builder::new()
+            .name("qsim-baseline".to_string())
+            .stack_size(24 << 20)
+            .spawn(move || {
+                while let Ok((scn, opts)) = jrx.recv() {
+                    let r = catch_unwind(AssertUnwindSafe(|| baselines_here(&scn, opts)));
+                    let r = match r {
+                        Ok(r) => r,
+                        Err(p) => Err(format!("baseline thread panicked: {}", panic_message(&p))),
+                    };
+                    if rtx.send(r).is_err() {
+                        break;
                     }
                 }
-                out.push(row);
-            }
-            vp::set_probe(None);
-            start_query();
-            SIM.with(|s| s.borrow_mut().mode = Mode::Off);
-            Ok(out)
-        })
-        .map_err(|e| format!("cannot spawn the baseline thread: {}", e))?;
-    match handle.join() {
-        Ok(r) => r,
-        Err(p) => Err(format!("baseline thread panicked: {}", panic_message(&p))),
+            })
+            .map_err(|e| format!("cannot spawn the baseline thread: {}", e))?;
+        *slot = Some(Worker { jobs: jtx, results: rrx, served: 0 });
     }
+    let w = slot.as_mut().unwrap();
+    w.served += 1;
+    if w.jobs.send((scn.clone(), opts)).is_err() {
+        *slot = None;
+        return Err("baseline thread is gone".to_string());
+    }
+    match w.results.recv() {
+        Ok(r) => r,
+        Err(_) => {
+            *slot = None;
+            Err("baseline thread ended without a result".to_string())
+        }
+    }
+}
+
+fn baselines_here(scn2: &Scenario, opts: ExecOpts) -> Result<Vec<Vec<Baseline>>, String> {
+    let anchor = 0u8;
+    SIM.with(|s| {
+        let mut s = s.borrow_mut();
+        *s = Sim::new();
+        s.mode = Mode::Baseline;
+        s.baseline_cap = opts.baseline_step_cap;
+        s.stack_base = &anchor as *const u8 as usize;
+        s.run_started = Some(std::time::Instant::now());
+    });
+    vp::set_probe(Some(probe));
+    let _ = take_output();
+    start_query();
+    if vp::peek_flag() {
+        vp::set_probe(None);
+        return Err("process poisoned: the stop flag is set and start_query() does not clear it".to_string());
+    }
+    let mut out = vec![];
+    for version in kb_versions(scn2) {
+        let kb = build_kb(&clauses_of_version(scn2, &version));
+        let mut row = vec![];
+        for q in &scn2.queries {
+            match run_plain(q, &kb, true, 400) {
+                Ok(b) => row.push(b),
+                Err(why) => {
+                    vp::set_probe(None);
+                    start_query();
+                    SIM.with(|s| s.borrow_mut().mode = Mode::Off);
+                    return Err(why);
+                }
+            }
+        }
+        out.push(row);
+    }
+    vp::set_probe(None);
+    start_query();
+    SIM.with(|s| s.borrow_mut().mode = Mode::Off);
+    Ok(out)
 }
 
 fn run_body(scn: &Scenario, opts: ExecOpts, baselines: &Result<Vec<Vec<Baseline>>, String>) -> RunRecord {
